@@ -6,8 +6,12 @@ VARIABLE hist
 FileItems == CASE FileId = 1 -> << <<1, 0, 2, 1>>, <<1, 3, 4, 2>>, <<1, 4, 6, 3>>, <<2, 1, 2, 4>>, <<2, 2, 5, 5>> >>
                [] FileId = 2 -> << <<1, 1, 3, 1>>, <<1, 3, 3, 2>>, <<1, 5, 6, 3>> >>
                [] FileId = 3 -> << <<1, 0, 1, 1>>, <<2, 0, 1, 2>>, <<2, 1, 2, 3>>, <<3, 0, 2, 4>>, <<3, 2, 3, 5>>, <<3, 4, 5, 6>>, <<3, 5, 6, 7>> >>
+               \* bigBed files (Kind = "bb"; 4th component = entry id): a long entry before short ones, nested, duplicates, equal starts
+               [] FileId = 4 -> << <<1, 0, 6, 1>>, <<1, 1, 2, 2>>, <<1, 3, 4, 3>>, <<2, 0, 1, 4>>, <<2, 0, 5, 5>>, <<2, 4, 5, 6>> >>
+               [] FileId = 5 -> << <<1, 1, 4, 1>>, <<1, 1, 4, 2>>, <<1, 2, 3, 3>>, <<2, 2, 6, 4>>, <<3, 0, 2, 5>>, <<3, 0, 1, 6>>, <<3, 5, 6, 7>> >>
 \* the zoom level of resolution 2 that the writers produce for these files (C07's mechanism), as <<chrom, start, end>>
-FileZ == LET lvl == ZoomRecsAllW(FileItems, ChromsOf(FileItems), 2) IN Map(LAMBDA r : <<r[1], r[2], r[3]>>, lvl)
+FileZ == LET lvl == IF Kind = "bb" THEN BB!ZoomRecsAllB(FileItems, ChromsOf(FileItems), 2) ELSE ZoomRecsAllW(FileItems, ChromsOf(FileItems), 2)
+         IN Map(LAMBDA r : <<r[1], r[2], r[3]>>, lvl)
 NoZ == <<>>
 Pts(c) == {0, 6} \cup UNION {{it[2], it[3]} : it \in {x \in Range(FileItems) : x[1] = c}}
 AllQ == {<<c, s, e>> \in (1..3) \X (0..6) \X (0..6) : c \in {it[1] : it \in Range(FileItems)} /\ s \in Pts(c) /\ e \in Pts(c) /\ s <= e}
@@ -23,5 +27,5 @@ MCNext == /\ steps < MaxSteps
              \/ (ToCached /\ hist' = Append(hist, [op |-> "cached", c |-> 0, s |-> 0, e |-> 0]))
              \/ (BadChrom /\ hist' = Append(hist, [op |-> "badchrom", c |-> 0, s |-> 0, e |-> 0]))
              \/ (Reopen /\ hist' = Append(hist, [op |-> "reopen", c |-> 0, s |-> 0, e |-> 0]))
-Emit == steps = MaxSteps => PrintT(<<"REPLAY", ToJson([file |-> FileId, items |-> Items, bs |-> Fanout, hist |-> hist, zrecs |-> ZRecs])>>)
+Emit == steps = MaxSteps => PrintT(<<"REPLAY", ToJson([file |-> FileId, kind |-> Kind, items |-> Items, bs |-> Fanout, hist |-> hist, zrecs |-> ZRecs])>>)
 =============================================================================
